@@ -68,10 +68,26 @@ class Executor:
         if kind == "process" and item.get("reexpress"):
             base = dict(item)
             u = base.pop("reexpress")
+            whole = base.pop("reexpress_whole", False)
             pm = self._build(base)
             pm.permeances = [(p_[0].convert(to_units=u, component=pm.mixture.first_component),
                               p_[1].convert(to_units=u, component=pm.mixture.second_component)) for p_ in pm.permeances]
+            if whole:
+                from pyvaporation import Permeance
+                pm.permeances = [(Permeance(value=int(round(p_[0].value)) + 1, units=u), Permeance(value=int(round(p_[1].value)) + 1, units=u))
+                                 for p_ in pm.permeances]
             return pm
+        if kind == "process" and item.get("second_stage"):
+            base = dict(item)
+            st2 = base.pop("second_stage")
+            first = self._build(base)
+            nxt = dict(base, steps=st2["steps"], dt=st2["dt"])
+            nxt["cond"] = dict(base["cond"], comp=st2["comp"])
+            second = self._build(nxt)
+            for name in ("feed_temperature", "feed_compositions", "permeate_composition", "permeate_temperature", "permeate_pressure",
+                         "feed_mass", "partial_fluxes", "permeances", "time", "feed_evaporation_heat", "permeate_condensation_heat"):
+                setattr(first, name, list(getattr(first, name)) + list(getattr(second, name)))
+            return first
         if kind == "process":
             pv = self._pv(item)
             cond = build.conditions(item["cond"])
